@@ -368,3 +368,39 @@ func firstN(n int) []int {
 	}
 	return out
 }
+
+// Words is the vocabulary of generated file contents (the content patterns of the pools occur in it).
+var Words = []string{"foo", "bar", "main", "abc", "func", "oo b", "x", "fo", "baz", "fooo", "bax", "abbc", "cx", "Foo", "BAR", "zz"}
+
+// RealShard generates a shard with real ASCII contents: one repository per name, 1–4 documents each, file names
+// unique within the corpus when prefix is.
+func RealShard(r *gen.Rand, sg *SGen, names []string, ids []uint32, tombstones bool, prefix string) *Shard {
+	s := &Shard{FeatureVersion: 12}
+	for i, n := range names {
+		rp := sg.Repo(n, ids[i])
+		if tombstones && r.Chance(1, 5) {
+			rp.Tombstone = true
+		}
+		s.Repos = append(s.Repos, rp)
+		nd := r.Range(1, 4)
+		for j := 0; j < nd; j++ {
+			d := Doc{Repo: i, Name: prefix + gen.Pick(r, []string{"a.go", "dir/main.go", "foo.txt", "README", "b.py", "x"}) + string(rune('0'+j)), Lang: gen.Pick(r, LangNames)}
+			if prefix == "" && j == 0 && r.Chance(1, 2) {
+				d.Name = gen.Pick(r, FileNames)
+			}
+			for b := range rp.Branches {
+				if r.Chance(2, 3) {
+					d.Branches = append(d.Branches, b)
+				}
+			}
+			var sb []byte
+			for k := r.Range(0, 12); k > 0; k-- {
+				sb = append(sb, gen.Pick(r, Words)...)
+				sb = append(sb, gen.Pick(r, []string{" ", "\n", " ", "(", ""})...)
+			}
+			d.Content = string(sb)
+			s.Docs = append(s.Docs, d)
+		}
+	}
+	return s
+}
